@@ -48,13 +48,13 @@ pub fn routings(g: &OGraph, n: usize) -> Vec<Routing> {
         out.push(Routing { name: "tree0, k0 -> k0 + k1".into(), tree: t1, sig: s });
     }
     if n >= 4 && l >= 2 {
+        // k0 -> k0 - k1 on the other tree: where two cycles share an edge one of the two recombinations
+        // produces a signature entry of modulus 2
         let mut s = g.fundamental_signature(t1);
         for row in s.iter_mut() {
-            let (a, b) = (row[l - 1], row[0]);
-            row[l - 1] = a - b;
-            row.swap(0, l - 1);
+            row[0] -= row[1];
         }
-        out.push(Routing { name: "last tree, permuted and k_last -> k_last - k0".into(), tree: t0, sig: s });
+        out.push(Routing { name: "last tree, k0 -> k0 - k1".into(), tree: t0, sig: s });
     }
     out
 }
